@@ -19,4 +19,8 @@ CLAIMED = {
         'text': 'Lean theorem chunked_eq_spec: for any digest functions, any block size > 0, any data and any partition into write_all calls (with the partial-write loop) the chunked hasher returns Hout(map H (blocks bs data)); corollaries for empty input, short input, exact multiples, fragmentation independence; MD5 streaming. Tied to util/hash.rs by exhaustive small-block differential runs and by the providers\' hasher() at k*4MiB-1/k*4MiB/k*4MiB+1 against hashlib.',
         'note': TRUST + 'streaming SHA-256/MD5 update == hash of the concatenation (sha2/md-5 crates, exercised against hashlib).',
     },
+    'C06': {
+        'text': 'Lean theorems about the sync-plan model for arbitrary group lists on both sides, any max >= 1, any incoming ok flag and any failure oracle: target_window (a group is kept iff fewer than max non-empty groups are newer), uploads_only_missing (nothing present is re-uploaded; uploads stay in the window), uploads_complete (error-free run uploads every missing local backup of the window), deletes_old_whole (only listed cloud groups outside and strictly older than the window, only after a run with no error at all), wiped_guard_blocks_delete. Tied to uploading/sync.rs by running the real sync_backups with a recording mock provider against the compiled model, plus an independent declarative oracle incl. convergence of a second run.',
+        'note': TRUST + 'names are fixed-width digit strings so byte order = numeric order; listings contain each name once; the convergence of a second run is checked by the oracle on every generated state, not yet proved as a theorem.',
+    },
 }
